@@ -132,6 +132,12 @@ CONTRACTS.append(ZContract('krylov.arnoldi_iteration', _arnoldi, ('C14', 'C15'))
 def verify(prop, tier='quick'):
     from . import idfresh
     out = idfresh.verify(prop)
+    if prop == 'C06':
+        try:
+            from . import symham
+            out += symham.verify()
+        except Exception as e:
+            out.append(Verdict('local_terms', 'S', 'undecided', f'engine S error: {type(e).__name__}: {e}', 0, 'hamiltonian', 'ensures', 'sympy'))
     if prop in ('C12', 'C13'):
         from . import ztrunc
         try:
